@@ -324,7 +324,15 @@ def run_harness(unit, h, src_c, workdir, label_by_line, mode='proof', solver=Non
     if mode == 'proof':
         gi += ['--apply-loop-contracts']
     gi += [base + '.a.gb', base + '.b.gb']
-    rc, out, _ = sh(gi, log=base + '.instrument.log', timeout=600)
+    for _attempt in range(12):
+        rc, out, _ = sh(gi, log=base + '.instrument.log', timeout=600)
+        m = re.search(r"Function to replace '(\w+)' not found", out)
+        if rc != 0 and m and m.group(1) in gi:
+            # the call does not occur in the code reachable from this harness: nothing to replace
+            k = gi.index(m.group(1))
+            del gi[k - 1:k + 1]
+            continue
+        break
     if rc != 0:
         raise Break('TOOL BREAK: goto-instrument failed for %s/%s (see %s)\n%s' % (unit.NAME, name, base + '.instrument.log', out[-1500:]))
     if mode == 'bounded':
